@@ -2322,7 +2322,7 @@ def r8_18(rep):
                   "derive traits the emitted Rust union does not have" % why, b.loc(c))
 
 
-@RULES.rule("R8.19", "a fact about the element type is a fact about the array (set-valued analyses that feed the derives)", floor=2)
+@RULES.rule("R8.19", "a fact about the element type is a fact about the array (set-valued analyses that feed the derives)", floor=3)
 def r8_19(rep):
     """HasFloat (no Eq/Ord/Hash) and HasTypeParameterInArray (no Copy) record per type whether something lies inside it.  An array
     contains its element: the `TypeKind::Array(t, _)` arm of each `constrain` must look `t` up in the analysis' own state.  Before the
@@ -2331,7 +2331,7 @@ def r8_19(rep):
     import c07
     n = 0
     for a in c07.analyses(rep):
-        if a.name not in ("HasFloat", "HasTypeParameterInArray"):
+        if a.name not in ("HasFloat", "HasTypeParameterInArray", "HasDestructorAnalysis"):
             continue
         b = a.methods["constrain"]
         arms = []
@@ -2348,13 +2348,24 @@ def r8_19(rep):
                 r = c07.root_field(c["recv"])
                 if r and r.get("adt") == a.adt and r["f"] in a.state:
                     key = b.canon(c["args"][0], 6)
-                    if "TypeKind::Array.0" in key or "~ir::ty::TypeKind::Array" in key:
+                    # the key is the element id bound by this arm's pattern (an or-pattern binds it once per alternative)
+                    ids = set()
+
+                    def binds(p_):
+                        if p_.get("k") == "Bind":
+                            ids.add(p_["id"])
+                        for q_ in p_.get("ps", []):
+                            binds(q_)
+                        if isinstance(p_.get("p"), dict):
+                            binds(p_["p"])
+                    binds(arm["pat"])
+                    if any(y["k"] == "Local" and y["id"] in ids for y in b.walk(c["args"][0])) or "TypeKind::Array.0" in key:
                         reads.append(key)
             rep.check(bool(reads), "array-forwards-element:%s" % a.name,
                       "the array arm looks its element up in `%s`" % "/".join(sorted(a.state)) if reads else
                       "the `TypeKind::Array` arm of %s::constrain never looks the element type up in the analysis' own state: what is known "
                       "about the element is lost for the array (and for every struct that holds the array)" % a.name, b.loc(arm["body"]))
-    rep.need(n >= 2, "Array arms of HasFloat / HasTypeParameterInArray")
+    rep.need(n >= 3, "Array arms of HasFloat / HasTypeParameterInArray / HasDestructorAnalysis")
 
 
 THROUGH_OPAQUE = ("HasDestructorAnalysis", "HasVtableAnalysis", "HasFloat")
